@@ -28,7 +28,7 @@ import re
 class SpecError(Exception):
     pass
 
-_FN_DIR = re.compile(r"^  (within|props|ret|attr|prologue|requires|ensures|decreases|loop|at|subst|kind|canary|stub|implheader)\b(.*)$")
+_FN_DIR = re.compile(r"^  (within|props|ret|attr|prologue|requires|ensures|decreases|loop|at|subst|kind|canary|stub|implheader|cut)\b(.*)$")
 _LOOP_DIR = re.compile(r"^    (invariant|invariant_except_break|ensures|decreases|prologue)\b(.*)$")
 
 
@@ -88,6 +88,11 @@ def parse(path):
                 buf = [mm.group(3)] if mm.group(3) else []
                 cur["at"].append([mm.group(2).encode().decode("unicode_escape"), buf, mm.group(1)])
                 target = buf
+                continue
+            if key == "cut":
+                mm = re.match(r'^"((?:[^"\\]|\\.)*)"\s*\.\.\s*"((?:[^"\\]|\\.)*)"\s*=>\s*"((?:[^"\\]|\\.)*)"\s*$', rest)
+                if not mm: raise SpecError(f"{path}:{ln}: bad cut")
+                cur.setdefault("cut", []).append(tuple(g.encode().decode("unicode_escape") for g in mm.groups()))
                 continue
             if key == "subst":
                 mm = re.match(r'^"((?:[^"\\]|\\.)*)"\s*=>\s*"((?:[^"\\]|\\.)*)"\s*$', rest)
